@@ -261,7 +261,9 @@ TEXT["C06"] = {
              "relayed are those during whose life an exchange of the other direction used the same message ID (invariant tying the "
              "monitor's book of exchanges to the store, the timers and the exchange states). A "
              "monitor that tracks the exchanges of both directions by direction AND message ID, independently of the gateway's store, "
-             "runs on every implementation trace: a lost acknowledgement outside the recorded interference class is a violation.",
+             "runs on every implementation trace: a lost acknowledgement outside the recorded interference class is a violation. "
+             "One clause without a theorem (glue, clause 5): a broker exchange that met an acknowledgement of an earlier exchange "
+             "with the same message ID while in its REGISTER step must still write its PUBLISH at the accepted REGACK, as the model does.",
     "note": GW_NOTE + " Partial: both components violate the property in the interference class (recorded findings); the positive theorems (gateway: all histories; client: every step from any state) show that nothing else fails; the schedule part of the quantifier is outside the event-atomic models.",
     "technique": "Coq refutation theorems with replayed witnesses + direction-aware exchange monitor on the implementation traces + differential execution",
 }
